@@ -459,3 +459,10 @@ Definition triv (_ : bytes) : bytes := [].
 Definition api_builder (items : list item) : Taproot.res berr br := Taproot.run triv triv items [].
 Definition finalize_p (b : br) : Taproot.outcome spendinfo := Taproot.finalize triv (fun _ => true) (fun _ _ => Some ([], false)) b [].
 Definition known_F16 (b : br) : bool := match b with [None] => true | _ => false end.
+
+(* ================================================================================================ src/pset/mod.rs: input / output count caps *)
+(* `if inputs_len > 10_000 { return Err(TooLargePset) }` then `Vec::with_capacity(inputs_len)`: count * size_of::<Input>() bytes are
+   reserved before the first input map is read *)
+Definition PSET_MAX_COUNT : N := 10000.
+Definition pset_reserve (sz count : N) : outcome unit * N :=
+  if PSET_MAX_COUNT <? count then (Fail (E "toolarge"), 0) else (Val tt, count * sz).
